@@ -190,7 +190,7 @@ def snapshot(XSH, tty_fd=None, live=False):
         try:
             import termios
 
-            snap["termios"] = repr(termios.tcgetattr(tty_fd))
+            snap["termios"] = termios.tcgetattr(tty_fd)
         except Exception as e:  # noqa: BLE001
             snap["termios"] = "error:%s" % type(e).__name__
     return snap
@@ -316,9 +316,18 @@ def diff_state(before, after, env_ignore=()):
     for k in sorted(set(bo) | set(ao)):
         if bo.get(k) != ao.get(k):
             probs.append("os.environ[%s]: %r -> %r" % (k, bo.get(k), ao.get(k)))
-    for k in ("tcpgrp", "termios"):
-        if k in before and before.get(k) != after.get(k):
-            probs.append("terminal %s: %s -> %s" % (k, str(before.get(k))[:80], str(after.get(k))[:80]))
+    if "tcpgrp" in before and before.get("tcpgrp") != after.get("tcpgrp"):
+        probs.append("terminal tcpgrp: foreground process group %s -> %s (shell's group %s)" % (
+            before.get("tcpgrp"), after.get("tcpgrp"), os.getpgrp()))
+    if "termios" in before and before.get("termios") != after.get("termios"):
+        b, a = before.get("termios"), after.get("termios")
+        names = ["iflag", "oflag", "cflag", "lflag", "ispeed", "ospeed"]
+        if isinstance(b, list) and isinstance(a, list):
+            d = ["%s %r -> %r" % (names[i], b[i], a[i]) for i in range(6) if b[i] != a[i]]
+            d += ["cc[%d] %r -> %r" % (i, x, y) for i, (x, y) in enumerate(zip(b[6], a[6])) if x != y]
+        else:
+            d = ["%r -> %r" % (b, a)]
+        probs.append("termios (not part of the property, counted only): " + ", ".join(d))
     return probs
 
 
